@@ -25,12 +25,10 @@ warnings.simplefilter('ignore')
 
 import replay  # noqa: E402
 sys.modules.setdefault('replay', replay)
-import replay_io  # noqa: E402,F401
-import replay_transform  # noqa: E402,F401
-try:
-    import replay_misc  # noqa: E402,F401
-except ImportError:
-    pass
+import glob  # noqa: E402
+import importlib  # noqa: E402
+for _p in sorted(glob.glob(os.path.join(HERE, 'replay_*.py'))):
+    importlib.import_module(os.path.basename(_p)[:-3])
 import gens  # noqa: E402
 
 
